@@ -1058,6 +1058,12 @@ pub mod verif_ioctl {
         std::mem::take(&mut *LOG.lock().unwrap())
     }
 
+    /// Forgets any pending failure injection and clears the log.
+    pub fn reset() {
+        FAIL.lock().unwrap().clear();
+        LOG.lock().unwrap().clear();
+    }
+
     /// Makes the next request of the given kind ("map", "unmap", "foreign") fail with EINVAL.
     pub fn fail_next(kind: &'static str) {
         FAIL.lock().unwrap().push(kind);
